@@ -78,7 +78,7 @@ def run(ctx):
     cg = ctx.callgraph(facts.AS_CONFIGURED, 'lib')
     summ = Summaries(cg)
     roots = common.entry_points(prog)
-    reach = cg.reachable(roots)
+    reach = common.checked_reach(cg, prog) if roots else {}
     cg.require_resolved(within=set(reach))
     tsrm = prog.tu('src/tsrm.c')
     if tsrm is None:
